@@ -313,7 +313,7 @@ pub fn run_cases<T, S, MK, F>(
     mk: MK,
     f: F,
 ) where
-    T: std::fmt::Debug + Clone,
+    T: std::fmt::Debug + Clone + serde::Serialize,
     S: Strategy<Value = T>,
     MK: Fn() -> S + Sync,
     F: Fn(&T) -> CheckResult + Sync,
@@ -352,7 +352,7 @@ pub fn run_cases<T, S, MK, F>(
                             check: check.to_string(),
                             site: "harness-or-library-panic".to_string(),
                             msg: format!("unexpected panic: {}", p),
-                            case: json!(format!("{:?}", v)),
+                            case: json!({"case": serde_json::to_value(&v).unwrap_or(json!(format!("{:?}", v)))}),
                         }),
                     };
                     match r {
@@ -381,7 +381,7 @@ pub fn run_cases<T, S, MK, F>(
                                 check: check.to_string(),
                                 site: "unknown".into(),
                                 msg: "failure did not reproduce on the shrunk value".into(),
-                                case: json!(format!("{:?}", v)),
+                                case: json!({"case": serde_json::to_value(&v).unwrap_or(json!(format!("{:?}", v)))}),
                             }),
                         };
                         rep.add_violation(fl);
@@ -397,7 +397,7 @@ pub fn run_cases<T, S, MK, F>(
 }
 
 /// Deterministic list of work items spread over the workers (work stealing by atomic index).
-pub fn par_items<T: Sync, F: Fn(&T) -> CheckResult + Sync>(
+pub fn par_items<T: Sync + serde::Serialize, F: Fn(&T) -> CheckResult + Sync>(
     ctx: &Ctx,
     rep: &Report,
     check: &str,
@@ -425,7 +425,7 @@ pub fn par_items<T: Sync, F: Fn(&T) -> CheckResult + Sync>(
                         check: check.to_string(),
                         site: "harness-or-library-panic".to_string(),
                         msg: format!("unexpected panic: {}", p),
-                        case: json!({"item_index": i}),
+                        case: json!({"case": serde_json::to_value(&items[i]).unwrap_or(json!(null)), "item_index": i}),
                     }),
                 };
                 match r {
